@@ -271,7 +271,7 @@ def run(ctx):
              "after processing, reply cut at header/payload offsets + reset, stale reply replayed, sequence number rewritten, reply duplicated} is a choice; all fault "
              "scripts with at most p faults (p per config, 1-2) are enumerated together with the message-level interleavings they induce; oracle: token ownership, per-token "
              "execution counters, oneway reads nothing, recovery of the proxy once the transport is healthy; distinct = distinct (fault script, outcomes, counters)",
-        extra={"configs": len(cfgs)})
+        extra={"configs": len(cfgs), "budgets_p_r": sorted({(c["p"], c["r"]) for c in cfgs}), "bound_completed": "every execution within each configuration's (preemption, reordering) budget was run to completion"})
     return {"violations": stats.violations, "coverage": cov,
             "assumptions": ["faults act on whole protocol messages (fragmentation is C06/C17's subject)", "handshake messages are delivered faithfully",
                             "a lost reply surfaces through the proxy's own timeout (virtual: fires when nothing else can run)"]}
